@@ -1334,3 +1334,77 @@ def rule_ctor_stores_what_it_was_given(ctx, rep: Report, rid="G18", package="gtw
                         f"{mi.rel}:{init.lineno}", nontrivial=bool(probs))
     if n < min_params:
         raise AnalysisError(f"{rep.prop}/{rid}: only {n} constructor parameters of parser nodes found")
+
+
+# ------------------------------------------------------------------------------------------ G19 node constructors by evaluation
+def rule_nodes_hold_what_was_written(ctx, rep: Report, rid="G19"):
+    """Two node constructors run by the analyser's interpreter on what the grammar hands them.  Namespace.__init__ keeps every
+    element of its block, in order, repeats included (a class forward-declared twice - the second time with `virtual` and a
+    base - is two declarations; dropping the 'repeat' loses the base).  CustomType.__init__ stores the qualified name exactly as
+    written: `std::string` stays `std::string` (its spelling elsewhere - instantiation lists, bases, typedef targets - does not go
+    through this constructor, so a canonical form applied here makes the tree disagree with itself).  The qualified names tried
+    include every `a::b` string literal the constructor mentions."""
+    from .rules_matlab import SampleObj, _PathEval, _Raised, mini_exec, program_classes
+    prog = ctx.prog
+    classes = program_classes(prog, ["Typename", "Namespace", "CustomType", "ForwardDeclaration"])
+    ran = 0
+    # ---- Namespace
+    ns_ci = prog.cls("Namespace")
+    fn = ns_ci.methods.get("__init__")
+    ps = func_params(fn) if fn is not None else []
+    loc = f"{ns_ci.mod.rel}:{fn.lineno if fn is not None else 0}"
+    if fn is None or ps[:3] != ["self", "name", "content"]:
+        raise AnalysisError(f"{rep.prop}/{rid}: Namespace.__init__(self, name, content, ...) not found")
+
+    def tn(name, ns=()):
+        return SampleObj(__kind__="Typename", name=name, namespaces=list(ns), instantiations=[], __complete__=True)
+
+    def fwd(name, ns=(), virtual="", base=""):
+        return SampleObj(__kind__="ForwardDeclaration", name=name, typename=tn(name, ns), is_virtual=virtual, parent_type=base, parent="")
+    a1, a2, a3 = fwd("Factor", ["other"]), fwd("Factor", ["other"], "virtual", tn("Base", ["other"])), fwd("Factor", ["other"])
+    k1 = SampleObj(__kind__="Class", name="K", parent="")
+    k2 = SampleObj(__kind__="Class", name="K", parent="")
+    inc = SampleObj(__kind__="Include", header="a.h", parent="")
+    content = [a1, inc, k1, a2, SampleObj(__kind__="Include", header="a.h", parent=""), k2, a3]
+    fns_ = dict(ns_ci.mod.functions)
+    try:
+        me = SampleObj(__kind__="Namespace")
+        env = {ps[0]: me, ps[1]: "ns", ps[2]: list(content)}
+        for p_, d_ in zip(ps[len(ps) - len(fn.args.defaults):], fn.args.defaults):
+            env.setdefault(p_, ast.literal_eval(d_))
+        mini_exec(fn, env, budget=20000, classes=classes, functions=fns_, methods=dict(ns_ci.methods))
+        got = me.get("content")
+        ran += 1
+        same = isinstance(got, list) and len(got) == len(content) and all(x is y for x, y in zip(got, content))
+        rep.add(rid, "Namespace.__init__:every element of the block is kept, in order, repeats included", same,
+                f"a block with 7 elements - `class other::Factor;` three times (once with `virtual` and a base), an include twice, two classes of one name - "
+                f"leaves {len(got) if isinstance(got, list) else got} element(s): a declaration the file makes is missing from the tree", loc)
+    except (_PathEval.Unknown, _Raised, TypeError, KeyError, IndexError, AttributeError) as ex:
+        raise AnalysisError(f"{rep.prop}/{rid}: Namespace.__init__ could not be evaluated ({str(ex)[:70]})")
+    # ---- CustomType
+    ct_ci = prog.cls("CustomType")
+    fn = ct_ci.methods.get("__init__")
+    ps = func_params(fn) if fn is not None else []
+    loc = f"{ct_ci.mod.rel}:{fn.lineno if fn is not None else 0}"
+    if fn is None or len(ps) != 2:
+        raise AnalysisError(f"{rep.prop}/{rid}: CustomType.__init__(self, t) not found")
+    names = [["gtsam", "Pose3"], ["string"], ["std", "string"], ["std", "vector"], ["Matrix"], ["gtsam", "noiseModel", "Base"]]
+    for mname, mfn in ct_ci.methods.items():
+        for c in ast.walk(mfn):
+            if isinstance(c, ast.Constant) and isinstance(c.value, str) and re.fullmatch(r"[A-Za-z_]\w*(::[A-Za-z_]\w*)+", c.value):
+                names.append(c.value.split("::"))
+    probs = []
+    try:
+        for parts in names:
+            me = SampleObj(__kind__="CustomType")
+            mini_exec(fn, {ps[0]: me, ps[1]: list(parts)}, budget=20000, classes=classes, functions=dict(ct_ci.mod.functions))
+            t = me.get("typename")
+            ran += 1
+            spelled = list(t.get("namespaces") or []) + [t.get("name")] if isinstance(t, dict) else None
+            if spelled != parts:
+                probs.append(f"`{'::'.join(parts)}` is stored as `{'::'.join(map(str, spelled)) if spelled else t}`")
+    except (_PathEval.Unknown, _Raised, TypeError, KeyError, IndexError, AttributeError) as ex:
+        raise AnalysisError(f"{rep.prop}/{rid}: CustomType.__init__ could not be evaluated ({str(ex)[:70]})")
+    rep.add(rid, "CustomType.__init__:the qualified name is stored as written", not probs,
+            f"{probs[:3]}: the tree names another type than the interface file (and than the same spelling in an instantiation list or a base class)", loc)
+    rep.units["node_constructor_runs"] = ran
